@@ -120,6 +120,8 @@ def mk_scalar(spec, seed=0):
     if k == 'int':
         return int(round(v)) if abs(v) < 1e6 else 3
     if k == 'float':
+        if seed % 10 in (1, 2):
+            return (0.3, -1.7)[seed % 10 - 1]      # later seeds: values that single precision cannot represent
         return float(v)
     if k == 'complex':
         return complex(v, 0.5)
@@ -130,6 +132,8 @@ def mk_scalar(spec, seed=0):
     if k == 'np.int64':
         return np.int64(int(round(v)) if abs(v) < 1e6 else 3)
     if k == 'tensor0':
+        if spec.get('representable32') and seed % 10 in (1, 2):
+            v = (3.0, 7.0)[seed % 10 - 1]     # float32 values whose reciprocal is not representable
         return tn.tensor(v, dtype=DT.get(spec.get('dtype', 'float64')))
     if k == 'tensor1':
         return tn.tensor([v], dtype=DT.get(spec.get('dtype', 'float64')))
@@ -249,7 +253,7 @@ def drv_tt_op(doc, args, inst):
             msgs.append('shape %s vs dense %s for x=%s y=%s' % (list(rf.shape), list(ref.shape), descr(x), descr(y)))
         else:
             e = relerr(rf, ref)
-            tol = 1e-4 if rf.dtype in (tn.float32, tn.complex64) else 1e-9
+            tol = 1e-4 if rf.dtype in (tn.float32, tn.complex64) else 1e-11
             if not (e < tol):
                 msgs.append('value differs from dense: rel.err %.3e for x=%s y=%s' % (e, descr(x), descr(y)))
         if args.get('check_dtype', True) and isinstance(r, TT):
